@@ -373,6 +373,10 @@ func run(r *lib.Run) {
 		dwg.Add(1)
 		go func(d int) { defer dwg.Done(); directedLegacyAsker(r, d) }(d)
 	}
+	for d := 0; d < r.Pick(2, 8); d++ {
+		dwg.Add(1)
+		go func(d int) { defer dwg.Done(); directedHeldOutsideRadius(r, d) }(d)
+	}
 	dwg.Wait()
 	realAdaptersNotHeld(r)
 	r.Extra("exchanges_by_pairing_and_policy", pairSeen)
